@@ -27,6 +27,31 @@ Inductive reach : nat -> list (nat * nat) -> dsu -> Prop :=
 | reach_step n es s o s' r :
     reach n es s -> step s o = Ok (s', r) -> reach (ghost_n n o) (ghost_es es o) s'.
 
+(** number of elements below [n] whose representative (under [rep]) is [r] *)
+Definition count_rep (n : nat) (rep : nat -> nat) (r : nat) : nat :=
+  length (filter (fun x => rep x =? r) (seq 0 n)).
+
+(** The invariant, with its ghost witnesses: [rank] (an upper bound of the height of every node that
+    survives path compression) and [rep] (the root every element leads to).  [n] is the element
+    count, [es] the union requests since the last reset. *)
+Record Ghost (n : nat) (es : list (nat * nat)) (s : dsu) (rank rep : nat -> nat) : Prop := {
+  g_lenp : length (p s) = n;
+  g_lensz : length (sz s) = n;
+  g_range : forall v, v < n -> nth v (p s) 0 < n;
+  g_rank : forall v, v < n -> nth v (p s) 0 <> v -> rank v < rank (nth v (p s) 0);
+  g_rep_par : forall v, v < n -> rep (nth v (p s) 0) = rep v;
+  g_rep_root : forall v, v < n -> rep v < n /\ nth (rep v) (p s) 0 = rep v;
+  g_root_rep : forall v, v < n -> nth v (p s) 0 = v -> rep v = v;
+  g_rank_rep : forall v, v < n -> rank v <= rank (rep v);
+  g_size : forall r, r < n -> nth r (p s) 0 = r ->
+             2 ^ rank r <= nth r (sz s) 0 /\ nth r (sz s) 0 = count_rep n rep r;
+  g_edges : forall x y, In (x, y) es -> x < n /\ y < n /\ rep x = rep y;
+  g_conn : forall x, x < n -> conn es x (rep x)
+}.
+
+Definition Inv (n : nat) (es : list (nat * nat)) (s : dsu) : Prop :=
+  exists rank rep, Ghost n es s rank rep.
+
 (** [chain pa v r k]: following the parent array [pa] from [v] for [k] steps arrives at the root [r] *)
 Inductive chain (pa : list nat) : nat -> nat -> nat -> Prop :=
 | chain_root r : nth_error pa r = Some r -> chain pa r r 0
